@@ -51,6 +51,12 @@ impl<'a> Toks<'a> {
         self.i += 1;
         Ok(r)
     }
+    pub fn clone_pos(&self) -> usize {
+        self.i
+    }
+    pub fn set_pos(&mut self, i: usize) {
+        self.i = i;
+    }
     pub fn done(&self) -> bool {
         self.i >= self.t.len()
     }
